@@ -629,6 +629,31 @@ class Ctx:
     def bool(self, name):
         return self._declare(name, "bool", None, None)
 
+    def bv(self, name, width, hi=None):
+        """unsigned bit-vector input of the given width (plain int in concrete mode); value <= hi if given"""
+        from .bv import SymBV
+
+        if name in self.inputs:
+            raise RuntimeError("duplicate input " + name)
+        top = (1 << width) - 1 if hi is None else hi
+        self.input_bounds[name] = ("int", 0, top)
+        if self.mode == "conc":
+            if name not in self.values:
+                raise Reject("no value for " + name)
+            v = int(self.values[name])
+            if v < 0 or v > top:
+                raise Reject(name)
+            self.inputs[name] = v
+            return v
+        # declared as an Int tied to the bit-vector so that sampling / model extraction stay uniform
+        c = z3.Int(name)
+        self.inputs[name] = c
+        b = z3.BitVec(name + "!bv", width)
+        self._assume_raw(z3.And(c >= 0, c <= top, b == z3.Int2BV(c, width), z3.BV2Int(b) == c))
+        if self.pins is not None and name in self.pins:
+            self._assume_raw(c == lift(self.pins[name]))
+        return SymBV(b, width)
+
     def func(self, name, arity=1):
         """Uninterpreted Real^arity -> Real function (any material law)."""
         if self.mode == "conc":
